@@ -185,7 +185,7 @@ def merge(records):
     rank = {'violation': 3, 'broken': 3, 'unknown': 2, 'ok': 1, 'info': 0, 'anchor': 0}
     sites = {}
     for r in records:
-        key = (r['rule'], r['file'], r['line'], r.get('col', 0), r.get('obligation', ''), r['construct'])
+        key = (r['rule'], r['file'], r['line'], r.get('col', 0), r.get('obligation', ''), r['construct'], r['kind'] == 'anchor')   # an anchor is never absorbed by a verdict at the same place
         cur = sites.get(key)
         if cur is None:
             r = dict(r)
